@@ -249,6 +249,36 @@ def encMany {α : Type} (f : α → Except EErr Bytes) : List α → Except EErr
       | .error e => .error e
       | .ok bs => .ok (b ++ bs)
 
+/-- `encoder.encode(field)`: value kind byte, then the deeper body (`enc`). -/
+def encField {X Y : Type} (F : Flavour X Y) (enc : Value X Y → Except EErr Bytes) (f : Value X Y) :
+    Except EErr Bytes :=
+  match enc f with
+  | .error e => .error e
+  | .ok b => .ok (VK.toU8 F.kc (f.kind F) :: b)
+
+/-- One array element: kind check, then `encode_deeper_body`. -/
+def encElem {X Y : Type} [DecidableEq X] (F : Flavour X Y) (ek : VK X) (enc : Value X Y → Except EErr Bytes)
+    (item : Value X Y) : Except EErr Bytes :=
+  if item.kind F ≠ ek then
+    .error (.mismatchingArrayElementValueKind (VK.toU8 F.kc ek) (VK.toU8 F.kc (item.kind F)))
+  else enc item
+
+/-- One map entry: key kind check, key body, value kind check, value body. -/
+def encEntry {X Y : Type} [DecidableEq X] (F : Flavour X Y) (kk vk : VK X) (enc : Value X Y → Except EErr Bytes)
+    (entry : Value X Y × Value X Y) : Except EErr Bytes :=
+  if entry.1.kind F ≠ kk then
+    .error (.mismatchingMapKeyValueKind (VK.toU8 F.kc kk) (VK.toU8 F.kc (entry.1.kind F)))
+  else
+    match enc entry.1 with
+    | .error e => .error e
+    | .ok kb =>
+      if entry.2.kind F ≠ vk then
+        .error (.mismatchingMapValueValueKind (VK.toU8 F.kc vk) (VK.toU8 F.kc (entry.2.kind F)))
+      else
+        match enc entry.2 with
+        | .error e => .error e
+        | .ok vb => .ok (kb ++ vb)
+
 /-- `encoder.encode_deeper_body(value)` with `rem` levels of depth left:
 `track_stack_depth_increase` (fails when `rem = 0`), then `Value::encode_body`. -/
 def encBody {X Y : Type} [DecidableEq X] (F : Flavour X Y) (max : Nat) : Nat → Value X Y → Except EErr Bytes
@@ -265,59 +295,35 @@ def encBody {X Y : Type} [DecidableEq X] (F : Flavour X Y) (max : Nat) : Nat →
       match writeSize fs.length with
       | .error e => .error e
       | .ok sz =>
-        -- `encoder.encode(field)`: value kind, then deeper body
-        match encMany (fun f =>
-            match encBody F max rem f with
-            | .error e => .error e
-            | .ok b => .ok (VK.toU8 F.kc (f.kind F) :: b)) fs with
+        match encMany (encField F (encBody F max rem)) fs with
         | .error e => .error e
         | .ok body => .ok (d :: sz ++ body)
     | .array ek es =>
       match writeSize es.length with
       | .error e => .error e
       | .ok sz =>
-        match encMany (fun item =>
-            if item.kind F ≠ ek then
-              .error (.mismatchingArrayElementValueKind (VK.toU8 F.kc ek) (VK.toU8 F.kc (item.kind F)))
-            else encBody F max rem item) es with
+        match encMany (encElem F ek (encBody F max rem)) es with
         | .error e => .error e
         | .ok body => .ok (VK.toU8 F.kc ek :: sz ++ body)
     | .tuple fs =>
       match writeSize fs.length with
       | .error e => .error e
       | .ok sz =>
-        match encMany (fun f =>
-            match encBody F max rem f with
-            | .error e => .error e
-            | .ok b => .ok (VK.toU8 F.kc (f.kind F) :: b)) fs with
+        match encMany (encField F (encBody F max rem)) fs with
         | .error e => .error e
         | .ok body => .ok (sz ++ body)
     | .map kk vk es =>
       match writeSize es.length with
       | .error e => .error e
       | .ok sz =>
-        match encMany (fun (entry : Value X Y × Value X Y) =>
-            if entry.1.kind F ≠ kk then
-              .error (.mismatchingMapKeyValueKind (VK.toU8 F.kc kk) (VK.toU8 F.kc (entry.1.kind F)))
-            else
-              match encBody F max rem entry.1 with
-              | .error e => .error e
-              | .ok kb =>
-                if entry.2.kind F ≠ vk then
-                  .error (.mismatchingMapValueValueKind (VK.toU8 F.kc vk) (VK.toU8 F.kc (entry.2.kind F)))
-                else
-                  match encBody F max rem entry.2 with
-                  | .error e => .error e
-                  | .ok vb => .ok (kb ++ vb)) es with
+        match encMany (encEntry F kk vk (encBody F max rem)) es with
         | .error e => .error e
         | .ok body => .ok (VK.toU8 F.kc kk :: VK.toU8 F.kc vk :: sz ++ body)
     | .custom c => F.encodeCustom c
 
 /-- `encoder.encode(value)`: value kind byte, then `encode_deeper_body`. -/
 def encValue {X Y : Type} [DecidableEq X] (F : Flavour X Y) (max rem : Nat) (v : Value X Y) : Except EErr Bytes :=
-  match encBody F max rem v with
-  | .error e => .error e
-  | .ok b => .ok (VK.toU8 F.kc (v.kind F) :: b)
+  encField F (encBody F max rem) v
 
 /-- `VecEncoder::new(buf, max).encode_payload(value, prefix)` -/
 def encodePayload {X Y : Type} [DecidableEq X] (F : Flavour X Y) (max : Nat) (v : Value X Y) : Except EErr Bytes :=
@@ -363,16 +369,27 @@ def decString (utf8 : Bytes → Bool) (bs : Bytes) : R Bytes :=
     | .ok (sl, bs2) =>
       if utf8 sl then .ok (sl, bs2) else .error (.invalidUtf8, bs2.length)
 
+/-- `decoder.decode()`: `read_value_kind`, then the deeper body (`dec`). -/
+def decField {X Y : Type} (F : Flavour X Y) (dec : VK X → Bytes → R (Value X Y)) (bs : Bytes) : R (Value X Y) :=
+  match readValueKind F.kc bs with
+  | .error e => .error e
+  | .ok (vk, bs') => dec vk bs'
+
+/-- One map entry: key body, value body. -/
+def decEntry {X Y : Type} (kk vk : VK X) (dec : VK X → Bytes → R (Value X Y)) (b : Bytes) :
+    R (Value X Y × Value X Y) :=
+  match dec kk b with
+  | .error e => .error e
+  | .ok (k, b') =>
+    match dec vk b' with
+    | .error e => .error e
+    | .ok (v, b'') => .ok ((k, v), b'')
+
 /-- `decoder.decode_deeper_body_with_value_kind(vk)` with `rem` levels of depth left:
 `track_stack_depth_increase` (fails when `rem = 0`), then `Value::decode_body_with_value_kind`. -/
 def decBody {X Y : Type} (F : Flavour X Y) (max : Nat) : Nat → VK X → Bytes → R (Value X Y)
   | 0, _, bs => .error (.maxDepthExceeded max, bs.length)
   | rem + 1, vk, bs =>
-    -- `decoder.decode()`: read_value_kind, then deeper body
-    let decValue : Bytes → R (Value X Y) := fun bs =>
-      match readValueKind F.kc bs with
-      | .error e => .error e
-      | .ok (vk, bs') => decBody F max rem vk bs'
     match vk with
     | .bool =>
       match decBool bs with
@@ -390,7 +407,7 @@ def decBody {X Y : Type} (F : Flavour X Y) (max : Nat) : Nat → VK X → Bytes 
       match readSize bs with
       | .error e => .error e
       | .ok (len, bs1) =>
-        match decMany decValue len bs1 with
+        match decMany (decField F (decBody F max rem)) len bs1 with
         | .error e => .error e
         | .ok (fs, bs2) => .ok (.tuple fs, bs2)
     | .enum =>
@@ -400,7 +417,7 @@ def decBody {X Y : Type} (F : Flavour X Y) (max : Nat) : Nat → VK X → Bytes 
         match readSize bs0 with
         | .error e => .error e
         | .ok (len, bs1) =>
-          match decMany decValue len bs1 with
+          match decMany (decField F (decBody F max rem)) len bs1 with
           | .error e => .error e
           | .ok (fs, bs2) => .ok (.enum d fs, bs2)
     | .array =>
@@ -423,13 +440,7 @@ def decBody {X Y : Type} (F : Flavour X Y) (max : Nat) : Nat → VK X → Bytes 
           match readSize bs00 with
           | .error e => .error e
           | .ok (len, bs1) =>
-            match decMany (fun b =>
-                match decBody F max rem kk b with
-                | .error e => .error e
-                | .ok (k, b') =>
-                  match decBody F max rem vk b' with
-                  | .error e => .error e
-                  | .ok (v, b'') => .ok ((k, v), b'')) len bs1 with
+            match decMany (decEntry kk vk (decBody F max rem)) len bs1 with
             | .error e => .error e
             | .ok (es, bs2) => .ok (.map kk vk es, bs2)
     | .custom x =>
@@ -439,9 +450,7 @@ def decBody {X Y : Type} (F : Flavour X Y) (max : Nat) : Nat → VK X → Bytes 
 
 /-- `decoder.decode()` -/
 def decValue {X Y : Type} (F : Flavour X Y) (max rem : Nat) (bs : Bytes) : R (Value X Y) :=
-  match readValueKind F.kc bs with
-  | .error e => .error e
-  | .ok (vk, bs') => decBody F max rem vk bs'
+  decField F (decBody F max rem) bs
 
 /-- `VecDecoder::new(buf, max).decode_payload(prefix)`:
 `read_and_check_payload_prefix`, `decode`, `check_end`. -/
